@@ -118,7 +118,7 @@ class Program:
         self.by_path = {}
         self.impl_info = {}  # (crate, file, line, col) -> (trait or None, self_type)
         self.enums = dict((k, dict(v)) for k, v in STD_ENUMS.items())
-        self.structs = {"Range": ["start", "end"]}  # name -> [field names]
+        self.structs = {"Range": ["start", "end"], "RangeFrom": ["start"]}  # name -> [field names]
         self.src = {}
 
     def add_crate(self, crate, mir_text, crate_dir):
